@@ -139,7 +139,9 @@ def instrument(rec):
         if account is None:
             return {}
         p = account.get_position(order.order_book_id, order.position_direction)
-        return {"closable": p.closable, "today_closable": p.today_closable, "qty": p.quantity, "old": p._old_quantity}
+        oo = [(o.position_effect.name, o.unfilled_quantity) for o in env.broker.get_open_orders(order.order_book_id) if o.position_direction == order.position_direction]
+        return {"closable": p.closable, "today_closable": p.today_closable, "qty": p.quantity, "old": p._old_quantity, "pos": snap_pos(p), "open_orders": oo,
+                "is_long": order.position_direction.name == "LONG"}
 
     def cash_inputs(env, order, account):
         return {"cash": None if account is None else float(account.cash), "order_cost": float(env.get_order_transaction_cost(order))}
